@@ -353,6 +353,8 @@ impl Check for C10 {
         vec![
             ProfileSpec { name: "tiling", quick: 15_000, thorough: 1_000_000 },
             ProfileSpec { name: "honest-swarm", quick: 2000, thorough: 100_000 },
+            // pieces of several MiB in torrents of several GiB: only the requests are observed
+            ProfileSpec { name: "phantom-piece", quick: 1000, thorough: 50_000 },
         ]
     }
     fn rule(&self) -> &'static str {
